@@ -1,6 +1,7 @@
 //! One module per property.
 pub mod common;
 pub mod progs;
+pub mod c01;
 pub mod c02;
 pub mod c03;
 pub mod c04;
@@ -14,12 +15,14 @@ pub mod c11;
 pub mod c12;
 pub mod c13;
 pub mod c14;
+pub mod c15;
 
 use crate::engine::*;
 use serde_json::Value as J;
 
 pub fn run(id: &str, cfg: &Cfg) -> Option<Report> {
     Some(match id {
+        "C01" => c01::run(cfg),
         "C02" => c02::run(cfg),
         "C03" => c03::run(cfg),
         "C04" => c04::run(cfg),
@@ -33,12 +36,14 @@ pub fn run(id: &str, cfg: &Cfg) -> Option<Report> {
         "C12" => c12::run(cfg),
         "C13" => c13::run(cfg),
         "C14" => c14::run(cfg),
+        "C15" => c15::run(cfg),
         _ => return None,
     })
 }
 
 pub fn replay(id: &str, case: &J) -> Option<i32> {
     Some(match id {
+        "C01" => c01::replay(case),
         "C02" => c02::replay(case),
         "C03" => c03::replay(case),
         "C04" => c04::replay(case),
@@ -52,12 +57,18 @@ pub fn replay(id: &str, case: &J) -> Option<i32> {
         "C12" => c12::replay(case),
         "C13" => c13::replay(case),
         "C14" => c14::replay(case),
+        "C15" => c15::replay(case),
         _ => return None,
     })
 }
 
 /// Verdict of a replay: the single case was re-executed into `st`.
-pub fn child_main(_args: &[String]) -> i32 { 2 }
+pub fn child_main(args: &[String]) -> i32 {
+    match args.first().map(|s| s.as_str()) {
+        Some("c01") => c01::child_main(args),
+        _ => 2,
+    }
+}
 
 pub fn replay_verdict(id: &str, st: &Stats) -> i32 {
     if let Some(v) = st.violations.first() {
